@@ -70,6 +70,8 @@ def join_val(a, b):
     return ('i', min(a[1], b[1]), max(a[2], b[2]), a[3] & b[3])
   if a[0] == 'f':
     return ('f', min(a[1], b[1]), max(a[2], b[2]), a[3] or b[3])
+  if a[0] == 'v':
+    return ('v', a[1] | b[1])
   return a if a == b else None
 
 
@@ -167,9 +169,26 @@ def join_state(a, b):
       j = join_val(v, w)
       if j is not None:
         m[k] = j
+    elif _only_in_other_variant(k, b):
+      m[k] = v
+  for k, v in b.m.items():
+    if k not in a.m and _only_in_other_variant(k, a):
+      m[k] = v
   co = {k: v for k, v in a.copyof.items() if b.copyof.get(k) == v}
   pr = {k: v for k, v in a.pred.items() if b.pred.get(k) == v}
   return State(m, co, pr, a.lt & b.lt)
+
+
+def _only_in_other_variant(k, other):
+  """k lies under a variant payload `.. v:X ..`; the other state is known to hold a different variant at that place, so the
+  payload of X is meaningless there and the join may keep this state's value (disjoint-sum join)"""
+  path = k[1]
+  for i, e in enumerate(path):
+    if e.startswith('v:'):
+      tag = other.m.get((k[0], path[:i] + ('#v',)))
+      if tag is not None and tag[0] == 'v' and e[2:] not in tag[1]:
+        return True
+  return False
 
 
 def widen_state(old, new, thresholds):
@@ -193,6 +212,8 @@ def widen_state(old, new, thresholds):
       m[k] = ('i', lo, hi, v[3] & o[3])
     elif v[0] == 'f' and o[0] == 'f':
       m[k] = ('f', -INF if v[1] < o[1] else v[1], INF if v[2] > o[2] else v[2], v[3] or o[3])
+    elif v[0] == 'v':
+      m[k] = v
     else:
       if v == o:
         m[k] = v
@@ -252,7 +273,10 @@ def fmt_desc(d, depth=0):
   if t == 'discr':
     return f"discr({fmt_desc(d[1], depth + 1)})"
   if t == 'agg':
-    return f"{(d[1] or '').split('::')[-1]}{{{','.join(fmt_desc(x, depth + 1) for x in d[3])}}}"
+    nm = (d[1] or '').split('::')[-1]
+    if d[2] and d[2] != nm:
+      nm += '::' + str(d[2])
+    return f"{nm}{{{','.join(fmt_desc(x, depth + 1) for x in d[3])}}}"
   if t == 'cmp':
     return f"{d[1]}({fmt_desc(d[2], depth + 1)},{fmt_desc(d[3], depth + 1)})"
   if t == 'not':
@@ -1076,7 +1100,20 @@ class Analysis:
             self.site('neg', bb, idx, line, 'Neg', [rv['o']], False, 'operand unknown')
           self.assign_val(st, p, top_of(ty))
       elif op == 'PtrMetadata':
-        self.assign_val(st, p, iv(0, ISIZE_MAX))
+        # the length of the slice behind the pointer: the symbolic '#len' of the referent
+        sk = self.key_of_operand(st, rv['o'])
+        lk = None
+        if sk is not None:
+          rvv = st.m.get(sk)
+          lk = (rvv[1], rvv[2] + ('#len',)) if rvv is not None and rvv[0] == 'r' else (sk[0], sk[1] + ('*', '#len'))
+        cur = st.m.get(lk) if lk is not None else None
+        if lk is not None and cur is None:
+          cur = iv(0, ISIZE_MAX)
+          st.m[lk] = cur
+        self.assign_val(st, p, cur if cur is not None else iv(0, ISIZE_MAX))
+        dk = self.key_of_place(st, p)
+        if lk is not None and dk is not None:
+          st.copyof[dk] = lk
       else:
         self.assign_val(st, p, top_of(self.place_ty(p)))
       return
@@ -1109,13 +1146,14 @@ class Analysis:
           vals.append(('v', self.read(st, o)))
         else:
           sk = self.key_of_operand(st, o)
-          vals.append(('t', st.subtree(sk) if sk is not None else {}, self.read(st, o)))
+          vals.append(('t', st.subtree(sk) if sk is not None else {}, self.read(st, o), st.root(sk) if sk is not None else None))
       st.kill(dk)
       pre = dk[1]
       ak = rv['ak']
       if ak == 'adt':
         adt = self.F.adts.get(norm(rv['adt']))
         if adt is not None and adt.get('kind') == 'enum' or rv.get('variant') in ('Some', 'Ok', 'Err', 'None', 'Continue', 'Break'):
+          st.m[(dk[0], pre + ('#v',))] = ('v', frozenset([rv['variant']]))  # which variant this value holds
           pre = pre + ('v:' + rv['variant'],)
       if ak in ('adt', 'tuple', 'closure', 'coroutine'):
         for i, x in enumerate(vals):
@@ -1129,6 +1167,8 @@ class Analysis:
                 st.m[(dk[0], base + path)] = v
             if x[2] is not None:
               st.m[(dk[0], base)] = x[2]
+              if x[3] is not None and x[3][0] != dk[0] and x[2][0] in ('i', 'f'):
+                st.copyof[(dk[0], base)] = x[3]  # the field is a copy of that scalar (keeps relational facts usable)
       elif ak == 'array':
         for i, x in enumerate(vals):
           v = x[1] if x[0] == 'v' else x[2]
@@ -1460,6 +1500,8 @@ class Analysis:
       if va[0] == 'f' and not (vb[1] <= va[1] and va[2] <= vb[2] and (vb[3] or not va[3])):
         return False
       if va[0] == 'r' and va != vb:
+        return False
+      if va[0] == 'v' and not va[1] <= vb[1]:
         return False
     for k, v in b.copyof.items():
       if a.copyof.get(k) != v:
